@@ -1,5 +1,7 @@
 import Btdht.Props.C03
 import Btdht.Proofs.Sorted
+import Btdht.Proofs.Reach
+import Btdht.Proofs.ReachHandler
 /-!
 # C02 — A search reaches the 8 closest nodes, announces to them, yields every peer found
 
@@ -23,11 +25,28 @@ Model: `Btdht.Lookup`. Proved for all runs:
   insertion point (`C02_candidates_sorted`) — hence the announce targets are the **closest** token
   holders: every candidate that answered with a token and is not announced to is at least as far
   from the info-hash as every announce target (`C02_announce_closest`).
-NOT proved in Lean: the liveness part under the environment hypotheses E1–E4 of DESIGN.md (that
-every one of the 8 closest nodes of the *network* becomes a candidate, is queried and answers
-before the end-game elapses). The end-to-end statement "announce targets = the 8 closest nodes of
-the network" is decided by the tie: the `[C02]` oracle of the `handler` engine on truthful
-simulated networks of 1..300 nodes (uniform and clustered ids). C02 is **partial** in this sense.
+* the reachability part under the environment hypotheses E1–E4 (`C02_announce_targets_reach`, helpers in
+  `Proofs/Reach.lean`): a search started by `TableLookup::new` on a node whose good routing-table
+  nodes belong to a network `N` (distinct 20-byte ids, distinct addresses), driven by any event
+  sequence in which every send succeeds, every query to a node of `N` is answered within `D < 1.5 s`
+  by that very node with its token and exactly the 8 nodes of `N` closest to the info-hash, and no
+  timer fires early, sends — when its end-game timer fires — exactly one `announce_peer` to each of
+  `closest8 target N` (all of `N` if fewer than 8), closest first, each with the token that node
+  issued. The proof keeps an invariant (`RInv`) over every such run: every candidate is a node of
+  `N`, once only; a candidate marked as queried was sent a query; every logged query is outstanding
+  or answered with its token recorded; in the end-game the 8 closest are candidates and every
+  candidate was queried. The search is never `Completed` before the end-game timer
+  (`C02_reach_not_completed_early`), and the handler's steps are the `Lookup` steps of the run
+  (`C02_handler_response`, `C02_handler_timeout`, `C02_handler_finish`).
+  One hypothesis is forced by the code: the all-zero placeholder handle `0…0 @ 0.0.0.0:0` must not
+  be a node of `N` — `recv_response` marks a named node as "queried" when it equals any slot of the
+  pick array, including unused slots, which still hold that placeholder.
+`C02_announce_targets_reach` is stated for one `Lookup` driven by an explicit event sequence;
+`C02_announce_targets_reach_handler` lifts it to runs of the handler (`HState.runOps`: any
+interleaving of datagrams, other searches and timer firings): every handler step either leaves a
+stored search alone or feeds it exactly one such event (`hstep_sim`, `Proofs/ReachHandler.lean`), so
+the contract is stated on the projection `projectRun` of the handler run to the search. That the
+end-game timer does fire is `C04_upper`.
 -/
 namespace Btdht
 
@@ -145,5 +164,350 @@ theorem C02_announce_closest (l : Lookup) (h : LookupSorted l) :
     apply List.drop_eq_nil_of_le
     rw [h8] at hlt ⊢
     omega
+
+/-! ### C02, reachability: the announces go to exactly the 8 closest nodes of the network -/
+
+/-- **C02 (the announces reach exactly the 8 closest nodes)**. An announcing search is started by
+`TableLookup::new` at instant `env0.now` and then driven by the events `evs` (answers and query
+timeouts, each with the environment `LEnv` — clock, routing table, timer — the handler passes along);
+finally its end-game timer fires in the environment `envF` and `recv_finished(port)` runs. Then the
+datagrams `recv_finished` sends are exactly one `announce_peer` to each of the 8 nodes of the
+network closest to the info-hash (all nodes if there are fewer than 8), closest first, each carrying
+the token that very node issued, the searched info-hash, the own id, and the configured port
+(`none` = `implied_port=1`), and each of them goes out.
+
+Hypotheses (the environment contract E1–E4 of the property):
+* `hnet` (E4): the network `N` is a finite set of nodes with pairwise distinct ids of the length of
+  the info-hash (20 bytes) and pairwise distinct addresses, none of them the all-zero placeholder
+  `0…0 @ 0.0.0.0:0` (which no real node can be: nothing answers from the unspecified address);
+* `htok`: the tokens the nodes issue are at most `MAX_TOKEN_LEN = 256` bytes long;
+* `hD`: `D` is the bound on the answer delay; it is below the 1.5 s query timeout and end-game
+  duration (the property says 1 s);
+* `hsend0`, and `sends` inside `hrun` / `hfin` (E1): every send succeeds;
+* `hgood`, `hsome` (E4): the good nodes of the routing table the search starts from are nodes of the
+  network, and there is at least one;
+* `hrun` (E2, E3): every event of the run is admissible (`Admissible`): time does not run backwards;
+  whenever the node handles an event, no query to a node of `N` has been unanswered for more than
+  `D` (`Timely`); an answer is an answer to a query that went out (a duplicated datagram may be
+  handled again), comes from the queried node itself, carries its token and names exactly the 8
+  nodes of `N` closest to the info-hash, in any order (`Truthful`; peer values and the list for the other address family are arbitrary); a query
+  timeout does not fire before its deadline (it may fire late, or never — when cancelled);
+* `hfin` (E2, E3): the end-game timer fires not before its deadline, 1.5 s after the end-game
+  round (it does fire: `C04_upper`), and the answers are timely up to that instant too. -/
+theorem C02_announce_targets_reach (N : List Handle) (tok : Handle → Bytes) (D : Nat)
+    (aid stream : Nat) (selfId : Bytes) (v6 : Bool) (target : Bytes) (port : Option Nat)
+    (env0 : LEnv) (evs : List (LEnv × ReachEv)) (envF : LEnv)
+    (hnet : NetOk N target)
+    (htok : ∀ h ∈ N, (tok h).length ≤ Constants.MAX_TOKEN_LEN)
+    (hD : D < Constants.LOOKUP_TIMEOUT_ns ∧ D < Constants.ENDGAME_TIMEOUT_ns)
+    (hsend0 : ∀ a, env0.sendFails a = false)
+    (hgood : ∀ h ∈ goodHandles env0 target, h ∈ N) (hsome : goodHandles env0 target ≠ [])
+    (hrun : TruthfulRun N tok target D (RCfg.start (Lookup.new aid stream selfId v6 target true env0) env0.now) evs)
+    (hfin : FinishOk N D ((RCfg.start (Lookup.new aid stream selfId v6 target true env0) env0.now).run evs) envF) :
+    sendsOf (((RCfg.start (Lookup.new aid stream selfId v6 target true env0) env0.now).run evs).l.recvFinished envF port).2.2 =
+      (closest8 target N).map fun h => (h.addr, Req.announce selfId target port (tok h), true) := by
+  obtain ⟨h0, _, s2, _, s4, _⟩ := start_inv (tok := tok) hnet aid stream selfId v6 true env0 hsend0 hgood hsome
+  obtain ⟨hinv, hst⟩ := run_inv hnet htok hD.1 evs _ h0 hrun
+  generalize (RCfg.start (Lookup.new aid stream selfId v6 target true env0) env0.now).run evs = c at hinv hst hfin
+  simp only [RCfg.start] at hst
+  obtain ⟨ht1, ht2⟩ := finish_targets hnet hD.2 c envF hinv hfin
+  rw [recvFinished_sends c.l envF port (hst.ann.trans s4) hfin.sends, hst.selfId, s2, hinv.tgt, ← ht1, List.map_map]
+  apply List.map_congr_left
+  intro e he
+  have hes : e ∈ c.l.sorted := (C02_announce_targets c.l).2.2.subset he
+  simp only [Function.comp_def]
+  rw [ht2 e hes]
+
+/-! Non-vacuity of `C02_announce_targets_reach`: a network of 10 nodes (ids `0…0k`, `k = 1..10`, info-hash
+`0…0`, so node `k` is at distance `k`); the searching node knows the two farthest ones (9 and 10) as
+good nodes. The run: both answer, naming nodes 1..8; the search queries 1, 2, 3, then 4, 5, 6, which
+answer too; the end-game round (at instant 8000 ns) queries 4..8 (4, 5, 6 a second time), all
+answer within microseconds; node 9's first answer arrives a second time and the (cancelled) timeout
+of the first query fires late — both change nothing; the end-game timer fires 1.5 s later. All hypotheses hold, and the
+theorem yields the 8 announces to the nodes 1..8. -/
+
+def c02xH (k : Nat) : Handle := ⟨List.replicate 19 0 ++ [k], ⟨false, [10, 0, 0, k], 6881⟩⟩
+def c02xN : List Handle := [c02xH 1, c02xH 2, c02xH 3, c02xH 4, c02xH 5, c02xH 6, c02xH 7, c02xH 8, c02xH 9, c02xH 10]
+def c02xTarget : Bytes := List.replicate 20 0
+def c02xSelf : Bytes := List.replicate 20 255
+def c02xTok (h : Handle) : Bytes := 7 :: h.addr.ip
+def c02xTable : Table :=
+  { selfId := c02xSelf, buckets := [{ nodes := [Node.asGood (c02xH 9) 0, Node.asGood (c02xH 10) 0] }], routers := [] }
+def c02xEnv (now : Nat) : LEnv := { table := c02xTable, timer := Timer.new, now := now, sendFails := fun _ => false }
+def c02xResp (h : Handle) : Resp :=
+  { id := h.id, values := [⟨false, [192, 168, 0, 1], 51413⟩], nodes4 := closest8 c02xTarget c02xN, nodes6 := [], token := some (c02xTok h) }
+def c02xStart : RCfg := RCfg.start (Lookup.new 2 0 c02xSelf false c02xTarget true (c02xEnv 0)) 0
+def c02xEv (now k seq : Nat) : Nat × ReachEv := (now, .resp (c02xH k) ⟨2, seq⟩ (c02xResp (c02xH k)))
+def c02xEvs : List (LEnv × ReachEv) :=
+  [c02xEv 1000 9 0, c02xEv 2000 10 1, c02xEv 3000 1 2, c02xEv 4000 2 3, c02xEv 5000 3 4, c02xEv 6000 4 5, c02xEv 7000 5 6,
+   c02xEv 8000 6 7, c02xEv 9000 4 9, c02xEv 10000 5 10, c02xEv 11000 6 11, c02xEv 12000 7 12, c02xEv 13000 8 13,
+   c02xEv 14000 9 0, (1500001000, .timeout ⟨2, 0⟩)].map fun x => (c02xEnv x.1, x.2)
+
+theorem c02x_net : NetOk c02xN c02xTarget := ⟨by decide, by decide, by decide, by decide⟩
+theorem c02x_tok : ∀ h ∈ c02xN, (c02xTok h).length ≤ Constants.MAX_TOKEN_LEN := by decide
+theorem c02x_good : goodHandles (c02xEnv 0) c02xTarget = [c02xH 9, c02xH 10] := by decide +kernel
+theorem c02x_run : TruthfulRun c02xN c02xTok c02xTarget 1000000000 c02xStart c02xEvs :=
+  truthfulRun_of_check _ _ _ _ _ _ (fun p hp a => by obtain ⟨x, _, rfl⟩ := List.mem_map.mp hp; rfl) (by decide +kernel)
+theorem c02x_fin : FinishOk c02xN 1000000000 (c02xStart.run c02xEvs) (c02xEnv 1500008000) :=
+  ⟨fun _ => rfl, by decide +kernel, 8000, by decide +kernel, by decide⟩
+
+example : sendsOf ((c02xStart.run c02xEvs).l.recvFinished (c02xEnv 1500008000) (some 6881)).2.2 =
+    [c02xH 1, c02xH 2, c02xH 3, c02xH 4, c02xH 5, c02xH 6, c02xH 7, c02xH 8].map fun h =>
+      (h.addr, Req.announce c02xSelf c02xTarget (some 6881) (7 :: h.addr.ip), true) := by
+  have h := C02_announce_targets_reach c02xN c02xTok 1000000000 2 0 c02xSelf false c02xTarget (some 6881) (c02xEnv 0) c02xEvs
+    (c02xEnv 1500008000) c02x_net c02x_tok (by decide) (fun _ => rfl) (by rw [c02x_good]; decide) (by rw [c02x_good]; simp)
+    c02x_run c02x_fin
+  rw [show c02xStart = RCfg.start (Lookup.new 2 0 c02xSelf false c02xTarget true (c02xEnv 0)) (c02xEnv 0).now from rfl, h]
+  decide
+
+/-- **C02 (nothing ends the search before its end-game timer)**: in every state of such a run —
+the hypotheses are those of `C02_announce_targets_reach`, and every prefix of an admissible run is
+an admissible run — the search is not `Completed` (`current_lookup_status`), so the handler never
+calls `recv_finished` from `HState.lookupResponse` / `HState.lookupTimeout`; only the end-game timer
+(`HState.handleTask (.lookupEndGame _)`) does. Moreover outside the end-game a query is outstanding
+and the network owes an answer (a logged query to a node of `N` whose answer was not handled yet: by
+E2 that answer comes within `D`, so the run cannot stall before the end-game), and once the end-game round has run, its starting instant is recorded: `egAt = some t`, every
+candidate has been queried and the 8 closest nodes of the network are candidates. -/
+theorem C02_reach_not_completed_early (N : List Handle) (tok : Handle → Bytes) (D : Nat)
+    (aid stream : Nat) (selfId : Bytes) (v6 : Bool) (target : Bytes)
+    (env0 : LEnv) (evs : List (LEnv × ReachEv))
+    (hnet : NetOk N target)
+    (htok : ∀ h ∈ N, (tok h).length ≤ Constants.MAX_TOKEN_LEN)
+    (hD : D < Constants.LOOKUP_TIMEOUT_ns)
+    (hsend0 : ∀ a, env0.sendFails a = false)
+    (hgood : ∀ h ∈ goodHandles env0 target, h ∈ N) (hsome : goodHandles env0 target ≠ [])
+    (hrun : TruthfulRun N tok target D (RCfg.start (Lookup.new aid stream selfId v6 target true env0) env0.now) evs) :
+    let c := (RCfg.start (Lookup.new aid stream selfId v6 target true env0) env0.now).run evs
+    c.l.completedNow = false ∧
+    (c.l.inEndgame = false → c.egAt = none ∧ c.l.active ≠ [] ∧
+      ∃ q ∈ c.log, q.1 ∉ c.answered ∧ ∃ h ∈ N, h.addr = q.2.1) ∧
+    (c.l.inEndgame = true → (∃ t, c.egAt = some t) ∧ (∀ e ∈ c.l.sorted, e.2.2 = true) ∧
+      ∀ x ∈ closest8 target N, x ∈ c.l.sorted.map (·.2.1)) := by
+  intro c
+  obtain ⟨h0, _⟩ := start_inv (tok := tok) hnet aid stream selfId v6 true env0 hsend0 hgood hsome
+  obtain ⟨hinv, _⟩ := run_inv hnet htok hD evs _ h0 hrun
+  refine ⟨?_, fun hreg => ⟨(hinv.reg hreg).1, (hinv.reg hreg).2, rinv_pending hinv hreg⟩, fun heg => ?_⟩
+  · unfold Lookup.completedNow
+    cases heg : c.l.inEndgame with
+    | true => simp
+    | false =>
+      have := (hinv.reg heg).2
+      cases hact : c.l.active with
+      | nil => exact absurd hact this
+      | cons a t => simp
+  · obtain ⟨⟨t, ht, _⟩, h2, h3⟩ := hinv.eg heg
+    exact ⟨⟨t, ht⟩, h3, h2⟩
+
+/-- **C02 (the handler's end-game step is `recv_finished`)**: on a node whose sends succeed
+(`failAddrs = []`, E1), when the end-game timer entry of the stored search `l` fires at `now`, the
+handler emits exactly the effects of `l.recvFinished env announcePort` for an environment `env`
+with clock `now` in which every send succeeds — the step `C02_announce_targets_reach` speaks about
+(with `envF := env`, `port := s.announcePort`). -/
+theorem C02_handler_finish (s : HState) (l : Lookup) (q now : Nat) (hfa : s.failAddrs = [])
+    (hfind : s.lookups.find? (·.aid = l.aid) = some l) :
+    ∃ env : LEnv, env.now = now ∧ (∀ a, env.sendFails a = false) ∧
+      (s.handleTask (.lookupEndGame ⟨l.aid, q⟩) now).2 = liftEffects (l.recvFinished env s.announcePort).2.2 := by
+  refine ⟨({ s with lookups := s.lookups.filter (·.aid ≠ l.aid) } : HState).env now, rfl, fun a => ?_, ?_⟩
+  · simp [HState.env, hfa]
+  · unfold HState.handleTask HState.completeLookup
+    simp only [hfind]
+
+/-- **C02 (the handler's answer step is `recv_response`)**: an answer whose transaction id routes
+to the stored search `l` makes the handler run `l.recvResponse env ⟨rsp.id, src⟩ t rsp` — the
+responder's handle is the claimed id with the datagram's source address — in an environment with
+clock `now` in which every send succeeds when `failAddrs = []`; the search stored afterwards is
+its result (unless that is `Completed`, which `C02_reach_not_completed_early` excludes). -/
+theorem C02_handler_response (s : HState) (l : Lookup) (t : Tid) (rsp : Resp) (src : Addr) (now : Nat) (hfa : s.failAddrs = []) :
+    ∃ env : LEnv, env.now = now ∧ (∀ a, env.sendFails a = false) ∧
+      ((l.recvResponse env ⟨rsp.id, src⟩ t rsp).1.completedNow = false →
+        (s.lookupResponse l (some t) rsp src now).2 = liftEffects (l.recvResponse env ⟨rsp.id, src⟩ t rsp).2.2 ∧
+        (s.lookupResponse l (some t) rsp src now).1.lookups =
+          s.lookups.map (fun x => if x.aid = l.aid then (l.recvResponse env ⟨rsp.id, src⟩ t rsp).1 else x)) := by
+  refine ⟨({ s with table := s.table.addNodes (Node.asGood ⟨rsp.id, src⟩ now) (s.namedBy rsp) now } : HState).env now, rfl,
+    fun a => by simp [HState.env, hfa], fun hc => ?_⟩
+  unfold HState.lookupResponse
+  simp only [hc]
+  exact ⟨rfl, rfl⟩
+
+/-- **C02 (the handler's query-timeout step is `recv_timeout`)**, as above. -/
+theorem C02_handler_timeout (s : HState) (l : Lookup) (t : Tid) (now : Nat) (hfa : s.failAddrs = []) :
+    ∃ env : LEnv, env.now = now ∧ (∀ a, env.sendFails a = false) ∧
+      ((l.recvTimeout env t).1.completedNow = false →
+        (s.lookupTimeout l t now).2 = liftEffects (l.recvTimeout env t).2.2 ∧
+        (s.lookupTimeout l t now).1.lookups = s.lookups.map (fun x => if x.aid = l.aid then (l.recvTimeout env t).1 else x)) := by
+  refine ⟨s.env now, rfl, fun a => by simp [HState.env, hfa], fun hc => ?_⟩
+  unfold HState.lookupTimeout
+  simp only [hc]
+  exact ⟨rfl, rfl⟩
+
+/-- Non-vacuity of `C02_reach_not_completed_early`: the same 10-node run. -/
+example := C02_reach_not_completed_early c02xN c02xTok 1000000000 2 0 c02xSelf false c02xTarget (c02xEnv 0) c02xEvs
+  c02x_net c02x_tok (by decide) (fun _ => rfl) (by rw [c02x_good]; decide) (by rw [c02x_good]; simp) c02x_run
+
+/-- Non-vacuity of the handler bridges: a node whose sends succeed, storing the search of the run
+above in its end-game. -/
+example : ∃ (s : HState) (l : Lookup), s.failAddrs = [] ∧ s.lookups.find? (·.aid = l.aid) = some l ∧ l.inEndgame = true :=
+  ⟨{ HState.new c02xSelf false false (some 6881) [] 0 with lookups := [(c02xStart.run c02xEvs).l] },
+    (c02xStart.run c02xEvs).l, rfl, by simp, by decide +kernel⟩
+
+/-! The hypothesis `NetOk.noDummy` of `C02_announce_targets_reach` cannot be dropped: a 3-node
+network containing the placeholder handle `0…0 @ 0.0.0.0:0` (info-hash `0…01`; nodes `0…01`, the
+placeholder, `0…02`, at distances 0, 1, 3). Every other hypothesis holds on the run below, yet the
+placeholder — the second closest node — is never queried (naming it next to a closer, not yet
+queried node evicts it from the pick array while unused slots, which hold the same placeholder,
+remain; `recv_response` then marks it as "queried") and gets no announce. -/
+
+def c02yTarget : Bytes := List.replicate 19 0 ++ [1]
+def c02yN : List Handle := [dummyHandle, c02xH 1, c02xH 2]
+def c02yTable : Table := { selfId := c02xSelf, buckets := [{ nodes := [Node.asGood (c02xH 2) 0] }], routers := [] }
+def c02yEnv (now : Nat) : LEnv := { table := c02yTable, timer := Timer.new, now := now, sendFails := fun _ => false }
+def c02yResp (h : Handle) : Resp :=
+  { id := h.id, values := [], nodes4 := [dummyHandle, c02xH 1, c02xH 2], nodes6 := [], token := some (c02xTok h) }
+def c02yStart : RCfg := RCfg.start (Lookup.new 2 0 c02xSelf false c02yTarget true (c02yEnv 0)) 0
+def c02yEvs : List (LEnv × ReachEv) :=
+  [(1000, ReachEv.resp (c02xH 2) ⟨2, 0⟩ (c02yResp (c02xH 2))), (2000, ReachEv.resp (c02xH 1) ⟨2, 1⟩ (c02yResp (c02xH 1)))].map
+    fun x => (c02yEnv x.1, x.2)
+
+example :
+    -- the network is as required, except that it contains the placeholder handle
+    ((∀ h ∈ c02yN, h.id.length = c02yTarget.length) ∧ (c02yN.map (·.id)).Nodup ∧ (c02yN.map (·.addr)).Nodup) ∧
+    (∀ h ∈ c02yN, (c02xTok h).length ≤ Constants.MAX_TOKEN_LEN) ∧
+    goodHandles (c02yEnv 0) c02yTarget = [c02xH 2] ∧
+    TruthfulRun c02yN c02xTok c02yTarget 1000000000 c02yStart c02yEvs ∧
+    FinishOk c02yN 1000000000 (c02yStart.run c02yEvs) (c02yEnv 1500002000) ∧
+    -- the three nodes, closest first
+    closest8 c02yTarget c02yN = [c02xH 1, dummyHandle, c02xH 2] ∧
+    -- but only two announces
+    (sendsOf ((c02yStart.run c02yEvs).l.recvFinished (c02yEnv 1500002000) none).2.2).map (·.1) = [(c02xH 1).addr, (c02xH 2).addr] :=
+  ⟨by decide, by decide, by decide +kernel,
+   truthfulRun_of_check _ _ _ _ _ _ (fun p hp a => by obtain ⟨x, _, rfl⟩ := List.mem_map.mp hp; rfl) (by decide +kernel),
+   ⟨fun _ => rfl, by decide +kernel, 2000, by decide +kernel, by decide⟩,
+   by decide +kernel, by decide +kernel⟩
+
+/-- **what `closest8 target N` is**: nodes of `N`, each once, `min 8 |N|` of them, listed closest
+first, and every other node of `N` is strictly farther from the target than each of them. -/
+theorem C02_closest8_spec (N : List Handle) (target : Bytes) (hn : NetOk N target) :
+    (∀ h ∈ closest8 target N, h ∈ N) ∧ (closest8 target N).Nodup ∧ (closest8 target N).length = min 8 N.length ∧
+    (closest8 target N).Pairwise (Closer target) ∧
+    ∀ h ∈ closest8 target N, ∀ n ∈ N, n ∉ closest8 target N → Closer target h n := by
+  have hperm := sortDist_perm target N
+  have hMnd : (sortDist target N).Nodup := hperm.nodup_iff.mpr hn.nodup
+  have hMs : (sortDist target N).Pairwise (Closer target) :=
+    hn.strict (fun x hx => hperm.subset hx) hMnd (sortDist_sorted target N)
+  refine ⟨fun h hh => mem_closestK hh, hMnd.sublist (List.take_sublist _ _), ?_, hMs.sublist (List.take_sublist _ _), ?_⟩
+  · simp [closest8, closestK, List.length_take, hperm.length_eq]
+  · intro h hh n hn' hnot
+    have hnM : n ∈ sortDist target N := hperm.symm.subset hn'
+    rw [← List.take_append_drop 8 (sortDist target N)] at hnM hMs
+    rcases List.mem_append.mp hnM with h1 | h1
+    · exact absurd h1 hnot
+    · exact (List.pairwise_append.mp hMs).2.2 h hh n h1
+
+/-- e.g. of ten nodes at distances 1..10 the eight closest are those at distances 1..8 -/
+example : closest8 c02xTarget c02xN = [c02xH 1, c02xH 2, c02xH 3, c02xH 4, c02xH 5, c02xH 6, c02xH 7, c02xH 8] := by
+  decide +kernel
+
+/-! ### C02, reachability at handler level -/
+
+/-- **C02 (handler level: the announces reach exactly the 8 closest nodes)**. A node whose sends
+succeed (`failAddrs = []`, E1) starts an announcing search for `target` at instant `T0`
+(`handle_start_lookup`; the search gets the action id `A = s0.nextAid`), then runs through any
+sequence `ops` of steps — datagrams of any kind from anybody, starts of other searches, timer
+firings, any number of concurrent searches — and finally pops the end-game entry of the search at
+instant `TF`. The datagrams of that last step are exactly one `announce_peer` to each of the 8
+nodes of the network closest to the info-hash, closest first, each with that node's token, the
+info-hash, the own id and the configured announce port, and each goes out.
+
+The environment contract is stated on the *projection* of the handler run to the search `A`
+(`projectRun`: the answers whose transaction id carries the prefix `A`, handled through
+`HState.lookupResponse`, and the firings of `A`'s query-timeout entries, handled through
+`HState.lookupTimeout`, each with the very environment the handler passes; `hstep_sim` proves that
+this is all a handler step can do to the stored search): `hrun` says that projection is a truthful,
+timely run (`TruthfulRun`, as in `C02_announce_targets_reach`); `hno` (E3) that no end-game entry of
+`A` is popped during `ops`; `htimely`, `hdue` (E2, E3) that at `TF` the answers are timely and the
+end-game deadline has passed. `hfree`: no stored search already uses the next action id (true in
+every reachable state: `AttrInv.aidRange`, `runOps_attr`). The other hypotheses are those of
+`C02_announce_targets_reach`, with the routing table of the node at `T0`. -/
+theorem C02_announce_targets_reach_handler (N : List Handle) (tok : Handle → Bytes) (D : Nat)
+    (s0 : HState) (target : Bytes) (T0 : Nat) (ops : List (HOp × Nat)) (TF : Nat)
+    (timer : Timer Task) (e : TimerEntry Task) (q : Nat)
+    (hnet : NetOk N target)
+    (htok : ∀ h ∈ N, (tok h).length ≤ Constants.MAX_TOKEN_LEN)
+    (hD : D < Constants.LOOKUP_TIMEOUT_ns ∧ D < Constants.ENDGAME_TIMEOUT_ns)
+    (hfa : s0.failAddrs = [])
+    (hfree : ∀ l ∈ s0.lookups, l.aid ≠ s0.nextAid)
+    (hgood : ∀ h ∈ goodHandles (s0.env T0) target, h ∈ N) (hsome : goodHandles (s0.env T0) target ≠ [])
+    (hno : NoEndgameFire (s0.startLookup target true T0).1 s0.nextAid ops)
+    (hrun : TruthfulRun N tok target D
+      (RCfg.start (Lookup.new s0.nextAid s0.nextStream s0.selfId s0.v6 target true (s0.env T0)) T0)
+      (projectRun (s0.startLookup target true T0).1 s0.nextAid ops))
+    (hpop : ((s0.startLookup target true T0).1.runOps ops).timer.pop = some (timer, e))
+    (htask : e.task = .lookupEndGame ⟨s0.nextAid, q⟩)
+    (htimely : Timely N D ((RCfg.start (Lookup.new s0.nextAid s0.nextStream s0.selfId s0.v6 target true (s0.env T0)) T0).run
+      (projectRun (s0.startLookup target true T0).1 s0.nextAid ops)) TF)
+    (hdue : ∃ t, ((RCfg.start (Lookup.new s0.nextAid s0.nextStream s0.selfId s0.v6 target true (s0.env T0)) T0).run
+      (projectRun (s0.startLookup target true T0).1 s0.nextAid ops)).egAt = some t ∧ t + Constants.ENDGAME_TIMEOUT_ns ≤ TF) :
+    hsendsOf (((s0.startLookup target true T0).1.runOps ops).fireTimer TF).2.1 =
+      (closest8 target N).map fun h => (h.addr, Body.req (Req.announce s0.selfId target s0.announcePort (tok h)), true) := by
+  have hsend0 : ∀ a, (s0.env T0).sendFails a = false := fun a => by simp [HState.env, hfa]
+  obtain ⟨h0, s1, s2, _, s4, _⟩ := start_inv (tok := tok) hnet s0.nextAid s0.nextStream s0.selfId s0.v6 true (s0.env T0) hsend0 hgood hsome
+  have hc0 := rinv_not_completed h0
+  simp only [RCfg.start] at hc0
+  have hstored := startLookup_stored s0 target true T0 hfree s1 hc0
+  have hfa1 : (s0.startLookup target true T0).1.failAddrs = [] := (hstep_fa s0 (.start target true) T0).trans hfa
+  have hap1 : (s0.startLookup target true T0).1.announcePort = s0.announcePort := hstep_ap s0 (.start target true) T0
+  obtain ⟨r1, r2, r3, r4⟩ := runOps_sim hnet htok hD.1 s0.nextAid ops _
+    (RCfg.start (Lookup.new s0.nextAid s0.nextStream s0.selfId s0.v6 target true (s0.env T0)) T0) hfa1 hstored h0 hno hrun
+  generalize (RCfg.start (Lookup.new s0.nextAid s0.nextStream s0.selfId s0.v6 target true (s0.env T0)) T0).run
+    (projectRun (s0.startLookup target true T0).1 s0.nextAid ops) = c at r2 r3 r4 htimely hdue
+  simp only [RCfg.start] at r4
+  obtain ⟨env, henv, hfs, heffs⟩ := fireTimer_finish _ s0.nextAid q TF timer e c.l hpop htask r2 r1
+  have hfin : FinishOk N D c env := ⟨hfs, by rw [henv]; exact htimely, by rw [henv]; exact hdue⟩
+  obtain ⟨ht1, ht2⟩ := finish_targets hnet hD.2 c env r3 hfin
+  rw [heffs, hsendsOf_lift, recvFinished_sends c.l env _ (r4.ann.trans s4) hfs, r4.selfId, s2, r3.tgt, ← ht1,
+    runOps_ap, hap1, List.map_map, List.map_map]
+  apply List.map_congr_left
+  intro x hx
+  have hes : x ∈ c.l.sorted := (C02_announce_targets c.l).2.2.subset hx
+  simp only [Function.comp_def]
+  rw [ht2 x hes]
+
+/-! Non-vacuity of `C02_announce_targets_reach_handler`: the same 10-node network, now as a run of the
+handler. The node (routing table: the good nodes 9 and 10) starts the announcing search at instant 0
+— it gets the action id 2 —, then handles the 13 answers of the run above as datagrams, a `ping`
+from a stranger and an answer with an id it never drew in between; the only timer entry left is
+the search's end-game entry, popped at 1.500008 s. All hypotheses hold and the theorem yields the 8
+announces. -/
+
+def c02zS0 : HState := { HState.new c02xSelf false false (some 6881) [] 0 with table := c02xTable }
+def c02zOp (now k seq : Nat) : HOp × Nat := (.incoming (.sym ⟨2, seq⟩) (.resp (c02xResp (c02xH k))) (c02xH k).addr, now)
+def c02zOps : List (HOp × Nat) :=
+  [c02zOp 1000 9 0, c02zOp 2000 10 1, c02zOp 3000 1 2,
+   (.incoming (.raw [1, 2]) (.req (.ping (List.replicate 20 77))) ⟨false, [172, 16, 0, 1], 4000⟩, 3500),
+   c02zOp 4000 2 3, c02zOp 5000 3 4, c02zOp 6000 4 5,
+   (.incoming (.raw [9, 9, 9]) (.resp (c02xResp (c02xH 3))) (c02xH 3).addr, 6500),
+   c02zOp 7000 5 6, c02zOp 8000 6 7, c02zOp 9000 4 9, c02zOp 10000 5 10, c02zOp 11000 6 11, c02zOp 12000 7 12,
+   c02zOp 13000 8 13]
+
+example : hsendsOf (((c02zS0.startLookup c02xTarget true 0).1.runOps c02zOps).fireTimer 1500008000).2.1 =
+    [c02xH 1, c02xH 2, c02xH 3, c02xH 4, c02xH 5, c02xH 6, c02xH 7, c02xH 8].map fun h =>
+      (h.addr, Body.req (Req.announce c02xSelf c02xTarget (some 6881) (7 :: h.addr.ip)), true) := by
+  have hg : goodHandles (c02zS0.env 0) c02xTarget = [c02xH 9, c02xH 10] := by decide +kernel
+  have hm : (((c02zS0.startLookup c02xTarget true 0).1.runOps c02zOps).timer.pop).map (·.2.task) =
+      some (.lookupEndGame ⟨2, 8⟩) := by decide +kernel
+  cases hpop : ((c02zS0.startLookup c02xTarget true 0).1.runOps c02zOps).timer.pop with
+  | none => rw [hpop] at hm; cases hm
+  | some x =>
+    rw [hpop] at hm
+    have htask : x.2.task = .lookupEndGame ⟨c02zS0.nextAid, 8⟩ := by
+      have : c02zS0.nextAid = 2 := rfl
+      rw [this]; simpa using hm
+    have h := C02_announce_targets_reach_handler c02xN c02xTok 1000000000 c02zS0 c02xTarget 0 c02zOps 1500008000 x.1 x.2 8
+      c02x_net c02x_tok (by decide) rfl (by simp [c02zS0, HState.new]) (by rw [hg]; decide) (by rw [hg]; simp)
+      (noEndgameFire_of_no_fire _ _ _ (by decide +kernel))
+      (truthfulRun_of_check _ _ _ _ _ _ (projectRun_sends _ _ _ (by decide +kernel)) (by decide +kernel))
+      hpop htask (by decide +kernel) ⟨8000, by decide +kernel, by decide⟩
+    rw [h]
+    decide +kernel
 
 end Btdht
